@@ -65,10 +65,10 @@ def sem_post(sid, tmp, out):
 
 
 def c13_cases(tier):
-    hs = ["executor-clean", "executor-live", "reusable", "broken", "primitives"]
+    hs = ["executor-clean", "executor-live", "reusable", "broken", "primitives", "collision"]
     ends = ["normal", "exception", "sigkill"] + (["os_exit"] if tier != "quick" else [])
     cases = [dict(history=h, ending=e) for h in hs for e in ends]
-    for where in ("unlink", "unregister"):
+    for where in ("unlink", "unregister", "register"):
         for nth in ((1, 3) if tier == "quick" else (1, 2, 3, 5, 8)):
             cases.append(dict(history="primitives", ending=f"kill_at_{where}:{nth}"))
             if nth == 1:
@@ -97,8 +97,11 @@ def run_c13(tier, nproc=6):
                 viol.append((f"C13:R:scenario-failed:{tag}", f"crash point never reached rc={r['rc']}", c))
             elif post["left"]:
                 viol.append((f"C13:R:sem-outlives-tree:{tag}",
-                             f"{len(post['left'])} named semaphores left after a death inside the "
-                             f"cleanup of a semaphore: {post['left'][:4]}", c))
+                             f"{len(post['left'])} named semaphores left after a death "
+                             + ("between the creation of a semaphore and its registration"
+                                if "register:" in c["ending"] and "unregister" not in c["ending"]
+                                else "inside the cleanup of a semaphore")
+                             + f": {post['left'][:4]}", c))
             continue
         if r["status"] != "ok" or res is None or post is None or "post_error" in (post or {}):
             viol.append((f"C13:R:scenario-failed:{tag}", f"{r['status']} rc={r['rc']} {res} {post} "
